@@ -187,7 +187,7 @@ class Smt:
                 res = _res(rr)
                 self.counts['z3-long'] += 1
                 self.time['z3-long'] += time.time() - t2
-        elif important and self.cross_check:
+        elif important and self.cross_check and not any(_has_fp(e) for e in list(extra) + self.assertions[-40:]):
             t1 = time.time()
             res2, out = self.cvc5_intblast(extra)
             self.counts['cross'] += 1
